@@ -48,7 +48,7 @@ def one(arg):
     shutil.rmtree(dst, ignore_errors=True)
     os.makedirs(dst)
     for f in os.listdir(stage):
-        if os.path.isfile(os.path.join(stage, f)):
+        if os.path.isfile(os.path.join(stage, f)) and f not in ('go.mod', 'go.sum'):
             shutil.copy(os.path.join(stage, f), os.path.join(dst, f))
     notes = open(os.path.join(stage, 'NOTES.md')).read() if os.path.exists(os.path.join(stage, 'NOTES.md')) else ''
     demos = [f for f in os.listdir(stage) if f.endswith('_test.go')]
